@@ -47,7 +47,24 @@ theorem falling_mono_left {a b : Nat} (h : a ≤ b) (k : Nat) : falling a k ≤ 
     simp only [falling]
     exact Nat.mul_le_mul h (ih (Nat.sub_le_sub_right h 1))
 
-/-! ### the model of `size_hint` -/
+theorem mul_fact_pred_le (n : Nat) : n * fact (n - 1) ≤ fact n := by
+  cases n with
+  | zero => simp
+  | succ m => simp [fact]
+
+/-- the number of injections is at most `n1!` -/
+theorem falling_le_fact (n k : Nat) : falling n k ≤ fact n := by
+  induction k generalizing n with
+  | zero =>
+    simp only [falling]
+    induction n with
+    | zero => simp [fact]
+    | succ m ih => exact Nat.le_trans ih (by simp only [fact]; exact Nat.le_mul_of_pos_left _ (Nat.succ_pos m))
+  | succ k ih =>
+    simp only [falling]
+    exact Nat.le_trans (Nat.mul_le_mul_left n (ih (n - 1))) (mul_fact_pred_le n)
+
+/-! ### the model of `size_hint` (of the TARGET's node count; D34 repaired) -/
 
 theorem hintTable_eq : hintTable = (List.range 21).map fact := by decide
 
@@ -55,12 +72,15 @@ theorem sizeHintModel_small {n : Nat} (h : n ≤ 20) : sizeHintModel n = some (0
   have all : ∀ m, m < 21 → sizeHintModel m = some (0, some (fact m)) := by decide
   exact all n (by omega)
 
-theorem sizeHintModel_21 : sizeHintModel 21 = none := by decide
-
-theorem sizeHintModel_large {n : Nat} (h : 22 ≤ n) : sizeHintModel n = some (0, none) := by
+theorem sizeHintModel_large {n : Nat} (h : 21 ≤ n) : sizeHintModel n = some (0, none) := by
   unfold sizeHintModel
   have : hintTable.length = 21 := by decide
-  rw [if_pos (by omega)]
+  rw [dif_pos (by omega)]
+
+/-- no panic: the bound test makes the table index legal -/
+theorem sizeHintModel_isSome (n : Nat) : (sizeHintModel n).isSome = true := by
+  unfold sizeHintModel
+  split <;> rfl
 
 /-! ### the judges -/
 
@@ -84,6 +104,19 @@ theorem judgeHintBig_sound (P : Problem) (lo : Nat) (hi : Option Nat)
   simp only [decide_eq_true_eq] at hhi
   have := subIsoAll_length_le P
   omega
+
+/-- the model's answer passes the judge that needs no enumeration, whatever the pattern's size -/
+theorem sizeHintModel_judgeBig (n0 n1 lo : Nat) (hi : Option Nat) (hm : sizeHintModel n1 = some (lo, hi)) :
+    judgeHintBig n0 n1 lo hi = true := by
+  by_cases h20 : n1 ≤ 20
+  · rw [sizeHintModel_small h20] at hm
+    simp only [Option.some.injEq, Prod.mk.injEq] at hm
+    obtain ⟨rfl, rfl⟩ := hm
+    simp [judgeHintBig, falling_le_fact]
+  · rw [sizeHintModel_large (by omega)] at hm
+    simp only [Option.some.injEq, Prod.mk.injEq] at hm
+    obtain ⟨rfl, rfl⟩ := hm
+    simp [judgeHintBig]
 
 /-- an accepted prefix: pairwise different vectors, each of them in the oracle's list -/
 theorem judgePrefix_sound (P : Problem) (h1 : P.g1.nodes.Nodup) (l : List (List Nat))
